@@ -201,6 +201,89 @@ func dumpHash(b []byte) string {
 	return hex.EncodeToString(h[:8])
 }
 
+// flatten lists every scalar of a JSON tree as "key.key.key=value" (array positions dropped, durations in
+// canonical spelling, tls_context read as a one-element tls_context_set).
+func flatten(v interface{}, path string, out map[string]bool) {
+	switch x := v.(type) {
+	case map[string]interface{}:
+		for k, e := range x {
+			kk := strings.ToLower(k)
+			if kk == "tls_context" && strings.HasSuffix(path, "filter_chains") {
+				kk = "tls_context_set"
+			}
+			flatten(e, path+"."+kk, out)
+		}
+	case []interface{}:
+		for _, e := range x {
+			flatten(e, path, out)
+		}
+	case string:
+		if d, err := time.ParseDuration(x); err == nil && x != "0" {
+			x = d.String()
+		}
+		out[path+"="+x] = true
+	case json.Number:
+		out[path+"="+x.String()] = true
+	case bool:
+		out[path+fmt.Sprintf("=%v", x)] = true
+	}
+}
+
+// normalised: scalars the parsers are known to rewrite on load (defaults, clamping, lower-casing) or that a
+// custom pair drops by design (non-string lb metadata); zero values may disappear behind omitempty.
+func normalised(fact string) bool {
+	i := strings.LastIndex(fact, "=")
+	path, val := fact[:i], fact[i+1:]
+	if val == "" || val == "0" || val == "false" || val == "0s" {
+		return true
+	}
+	for _, p := range []string{".listeners.network", ".clusters.max_request_per_conn", ".clusters.conn_buffer_limit_bytes",
+		".clusters.hosts.weight", ".clusters.lb_subset_config.fall_back_policy"} {
+		if strings.HasSuffix(path, p) {
+			return true
+		}
+	}
+	if strings.Contains(path, ".filter_metadata.mosn.lb.") {
+		return true // only string values are metadata
+	}
+	return false
+}
+
+// lost: scalars of the input configuration that the first dump no longer has.
+func lost(c *hx.Ctx, kind string, orig []byte, d1 []byte) int {
+	var a, b interface{}
+	da := json.NewDecoder(bytes.NewReader(orig))
+	da.UseNumber()
+	if da.Decode(&a) != nil {
+		return 0
+	}
+	db := json.NewDecoder(bytes.NewReader(d1))
+	db.UseNumber()
+	db.Decode(&b)
+	fa, fb := map[string]bool{}, map[string]bool{}
+	flatten(a, "", fa)
+	flatten(b, "", fb)
+	n := 0
+	for f := range fa {
+		if !fb[f] && !normalised(f) {
+			n++
+			c.Count(kind + ".lost=" + f[:strings.LastIndex(f, "=")])
+		}
+	}
+	return n
+}
+
+func readJSON(path string) []byte {
+	content, err := ioutil.ReadFile(path)
+	if err != nil {
+		return nil
+	}
+	if ext := filepath.Ext(path); ext == ".yaml" || ext == ".yml" {
+		content, _ = yaml.YAMLToJSON(content)
+	}
+	return content
+}
+
 // roundTrip loads path, dumps, loads the dump, dumps again; returns the impl token.
 func roundTrip(c *hx.Ctx, path, tmp, kind string) string {
 	d1, why := loadDump(path)
@@ -208,15 +291,22 @@ func roundTrip(c *hx.Ctx, path, tmp, kind string) string {
 		c.Count(kind + ".unloadable=" + why)
 		return "unloadable:" + why
 	}
+	// what MOSN's own types understand of the input: the input through one pure decode / encode of v2.MOSNConfig
+	understood := []byte(nil)
+	pure := &v2.MOSNConfig{}
+	if json.Unmarshal(readJSON(path), pure) == nil {
+		understood, _ = json.Marshal(pure)
+	}
+	nlost := lost(c, kind, understood, d1)
 	p2 := filepath.Join(tmp, "dump1.json")
 	ioutil.WriteFile(p2, d1, 0644)
 	d2, why := loadDump(p2)
 	if why != "" {
 		c.Count(kind + ".reload-fails=" + why)
-		return "ok:" + dumpHash(d1) + ":reload-" + why
+		return fmt.Sprintf("ok:%s:reload-%s:lost%d", dumpHash(d1), why, nlost)
 	}
 	c.Count(kind + ".loaded")
-	return "ok:" + dumpHash(d1) + ":" + dumpHash(d2)
+	return fmt.Sprintf("ok:%s:%s:lost%d", dumpHash(d1), dumpHash(d2), nlost)
 }
 
 func samples(c *hx.Ctx, tmp string) {
